@@ -28,7 +28,8 @@ class Node:
 class Pool:
     """accumulates the Python source of the generated classes"""
     HEADER = ["from dataclasses import dataclass, field", "from typing import *", "from enum import Enum",
-              "from apischema import alias, schema, dependent_required, properties", "from apischema.metadata import fall_back_on_default, flatten", "NoneType = type(None)", ""]
+              "from apischema import alias, schema, dependent_required, properties", "from apischema.metadata import fall_back_on_default, flatten", "NoneType = type(None)",
+              "from uuid import UUID", "from datetime import date", ""]
     def __init__(self): self.src = list(self.HEADER); self.n = 0
     def fresh(self, p): self.n += 1; return f"{p}{self.n}"
     def add(self, lines): self.src += lines + [""]
@@ -289,6 +290,24 @@ class Gen:
             self.pool.add(decl)
             return Node("enum", ["enum", n, [["Z", lit_proto(v)]]], n, vals=[v], decl=decl)
         return Node("literal", ["literal", [lit_proto(v)]], f"Literal[{v!r}]", vals=[v])
+    def g_keyconv(self, d):
+        """Dict[K, V] whose key type is converted from a string (UUID, date, an Enum of strings) and whose values are check-only:
+        outside the Lean grammar (tag `stdkey`); `typed(datum)` is the value the datum denotes"""
+        import uuid, datetime
+        kk = self.rnd.choice(["UUID", "date", "enum"])
+        v = self.rnd.choice([self.g_int, self.g_str, self.g_bool])(0)
+        if self.rnd.random() < 0.3: v = Node("optional", ["union", [v.lean, ["none"]]], f"Optional[{v.py}]", [v])
+        if kk == "enum":
+            e = self.pool.fresh("E"); decl = [f"class {e}(Enum):", "    A = 'ka'", "    B = 'kb'"]; self.pool.add(decl)
+            kpy, keys, conv = e, ["ka", "kb"], (lambda ns, k: ns[e](k))
+        elif kk == "UUID":
+            kpy, keys, conv = "UUID", ["58c88e87-8d7b-4f4e-9c53-6b4a1b2c3d4e", "00000000-0000-0000-0000-000000000001"], (lambda ns, k: uuid.UUID(k))
+        else:
+            kpy, keys, conv = "date", ["2020-02-29", "1999-12-31"], (lambda ns, k: datetime.date.fromisoformat(k))
+        n = Node("mapping", ["mapping", ["str"], v.lean], f"Dict[{kpy}, {v.py}]", [self.g_str(0), v])
+        n.tags = ("stdkey",); n.keys = keys
+        n.typed = lambda ns, datum: {conv(ns, k): x for k, x in datum.items()}
+        return n
     def g_optenum1(self, d):
         """Optional[E] for an Enum of one member (its schema is a `const`)"""
         n = self.pool.fresh("E"); m, v = self.rnd.choice([("X", "x"), ("Y", 1), ("Z", "zz")])
@@ -442,6 +461,8 @@ class Gen:
             return [self.valid(t.kids[0], depth + 1) for _ in range(n)]
         if k == "clist": return [self.valid(t.kids[0], depth + 1) for _ in range(r.randint(0, 3))]
         if k == "tuple": return [self.valid(x, depth + 1) for x in t.kids]
+        if k in ("mapping",) and hasattr(t, "keys"):
+            return {kk: self.valid(t.kids[1], depth + 1) for kk in r.sample(t.keys, r.randint(0, len(t.keys)))}
         if k in ("mapping",):
             return {self.valid(t.kids[0]) if t.kids[0].kind == "literal" else r.choice(["k", "a", "ab", "zz"]): self.valid(t.kids[1], depth + 1) for _ in range(r.randint(0, 2))}
         if k == "cdict": return {r.choice(["k", "a", "zz"]): self.valid(t.kids[0], depth + 1) for _ in range(r.randint(0, 2))}
